@@ -56,6 +56,18 @@ class Author(models.Model):
         db_table = "author"
 
 
+class Profile(models.Model):
+    bio = models.CharField(max_length=50)
+    level = models.IntegerField()
+    # Author.profile is the reverse side of this one-to-one
+    author = models.OneToOneField(Author, null=True, on_delete=models.SET_NULL,
+                                  related_name="profile")
+
+    class Meta:
+        app_label = "vp_djapp"
+        db_table = "profile"
+
+
 class Tag(models.Model):
     label = models.CharField(max_length=50)
     weight = models.IntegerField()
